@@ -17,8 +17,10 @@ import hashlib
 
 from common import hx, exc_name, INTERNAL
 from sims import auth_felica as F
+from sims import auth_des as D
 
 ALLOWED_INTERNAL = {            # documented argument / usage errors
+    "n": set(), "h": set(), "f": set(),
     "a": {"ValueError"},        # password shorter than 16 octets
     "t": {"ValueError"},
     "r": {"RuntimeError"},      # read_with_mac / write_with_mac before any authentication
@@ -68,6 +70,7 @@ def key_of(pw):
 
 
 FORGET = [False]     # which of the two modelled behaviours the tree under test shows (probe())
+NONE_OK = [False]    # tag.ndef when read_with_mac returns None: no NDEF data (repaired) / TypeError (as found)
 
 
 def probe(det_os):
@@ -90,20 +93,44 @@ def probe(det_os):
     except Exception:  # noqa
         FORGET[0] = False
     det_os.next = []
+    # does tag.ndef survive a failed MAC verification?  (finding ndef-mac-failure-typeerror)
+    try:
+        blocks = F.store_ndef(initial_blocks_plain(key), bytes(range(40)))
+        tag = F.LiteTag(bytes(16), False)
+        tag.b = {n: bytearray(v) for n, v in blocks.items()}
+        air, t = F.activate(tag, None, True)
+        det_os.next = [bytes(16)]
+        if t.authenticate(key) is True:
+            n0 = air.n
+            air.transit = lambda d, i, f: (f[:20] + bytes([f[20] ^ 1]) + f[21:]) if (d == "r" and i == n0 + 1) else f
+            try:
+                NONE_OK[0] = t.ndef is None
+            except TypeError:
+                NONE_OK[0] = False
+    except Exception:  # noqa
+        NONE_OK[0] = False
+    det_os.next = []
     return FORGET[0]
+
+
+def initial_blocks_plain(key):
+    tag = F.LiteTag(F.key_block(key), False)
+    return {n: bytes(v) for n, v in tag.b.items()}
 
 
 class Hist(object):
     """initial card + calls + channel rules"""
 
-    def __init__(self, lite_s, blocks, ops, rules=(), label=""):
+    def __init__(self, lite_s, blocks, ops, rules=(), label="", sys12fc=False):
         self.lite_s, self.blocks, self.ops, self.rules, self.label = lite_s, dict(blocks), list(ops), list(rules), label
+        self.sys12fc = sys12fc          # the tag object was created from a polling response for system 12FCh
 
     def with_rules(self, rules, label=None):
-        return Hist(self.lite_s, self.blocks, self.ops, rules, self.label if label is None else label)
+        return Hist(self.lite_s, self.blocks, self.ops, rules, self.label if label is None else label, self.sys12fc)
 
     def line(self):
-        toks = ["hist", "S1" if self.lite_s else "S0", "G1" if FORGET[0] else "G0", "I" + hx(F.IDM), "F00"]
+        toks = ["hist", "S1" if self.lite_s else "S0", "G1" if FORGET[0] else "G0", "N1" if NONE_OK[0] else "N0",
+                "Y1" if self.sys12fc else "Y0", "I" + hx(F.IDM), "F00"]
         for n in sorted(self.blocks):
             toks.append("B%02x=%s" % (n, hx(self.blocks[n])))
         for op in self.ops:
@@ -113,7 +140,7 @@ class Hist(object):
         return " ".join(toks)
 
     def describe(self):
-        return {"product": "FelicaLiteS" if self.lite_s else "FelicaLite", "label": self.label,
+        return {"product": "FelicaLiteS" if self.lite_s else "FelicaLite", "label": self.label, "tag.sys": "12FC" if self.sys12fc else "88B4",
                 "card_blocks": {"%02x" % n: bytes(v).hex() for n, v in sorted(self.blocks.items())},
                 "calls": [op_text(op) for op in self.ops],
                 "channel": ["%s of exchange %d: %s%s" % ("response" if d == "r" else "command", i, kind,
@@ -133,6 +160,10 @@ def op_token(op):
         return "t:%s:%d:%02x:%s" % ("None" if op[1] is None else hx(op[1]), 1 if op[2] else 0, op[3], hx(op[4]))
     if k == "s":
         return "s:%02x:%s" % (op[1], hx(op[2]))
+    if k in ("n", "h"):
+        return k
+    if k == "f":
+        return "f:%s" % ("None" if op[1] is None else "%02x" % op[1])
     raise ValueError(op)
 
 
@@ -153,6 +184,12 @@ def op_text(op):
             "None" if op[1] is None else "bytes.fromhex(%r)" % bytes(op[1]).hex(), bool(op[2]), op[3], bytes(op[4]).hex())
     if k == "s":
         return "<the card's block 0x%02x becomes %s>" % (op[1], bytes(op[2]).hex())
+    if k == "n":
+        return "tag.ndef.octets if tag.ndef is not None else None"
+    if k == "h":
+        return "tag.ndef.has_changed if tag.ndef is not None else None"
+    if k == "f":
+        return "format(wipe=%r)" % (op[1],)
     return repr(op)
 
 
@@ -176,7 +213,7 @@ class Transit(object):
 
 
 def show_result(kind, r):
-    if kind in ("a", "t"):
+    if kind in ("a", "t", "f"):
         return "true" if r is True else "false" if r is False else "other:%r" % (r,)
     if kind in ("r", "q"):
         if r is None:
@@ -196,7 +233,7 @@ class Run(object):
         for n, v in h.blocks.items():
             tag.b[n] = bytearray(v)
         self.tag = tag
-        self.air, self.t = F.activate(tag, Transit(h.rules))
+        self.air, self.t = F.activate(tag, Transit(h.rules), h.sys12fc)
         self.air.n, self.air.trace, self.air.sent = 0, [], []
         self.steps = []            # per call: dict(op, result, x0, x1, calls, before)
         for op in h.ops:
@@ -226,6 +263,14 @@ class Run(object):
                     elif k == "t":
                         det_os.next = [bytes(op[4])]
                         res = show_result(k, self.t.protect(op[1], read_protect=op[2], protect_from=op[3]))
+                    elif k == "n":
+                        o = self.t.ndef
+                        res = "none" if o is None else show_result("r", o.octets)
+                    elif k == "h":
+                        o = self.t.ndef
+                        res = "none" if o is None else show_result("a", o.has_changed)
+                    elif k == "f":
+                        res = show_result(k, self.t.format(wipe=op[1]))
                     else:
                         raise ValueError(op)
                 except Exception as e:  # noqa
@@ -238,8 +283,13 @@ class Run(object):
         t = self.t
         sk, iv = getattr(t, "_sk", None), getattr(t, "_iv", None)
         sess = "nosess" if sk is None or iv is None else "%s:%s" % (hx(sk), hx(iv))
-        return "%s | %s | %s %s %s" % (";".join(s["result"] for s in self.steps), ";".join(hx(c) for c in self.air.sent),
-                                       hx(self.tag.digest()), "1" if getattr(t, "_authenticated", None) is True else "0", sess)
+        o = getattr(t, "_ndef", None)
+        data = None if o is None else getattr(o, "_data", None)
+        cache = "none" if o is None else ("other:%r" % (data,) if not isinstance(data, (bytes, bytearray)) else hx(data))
+        mac = "1" if getattr(t, "read_from_ndef_service", None) == getattr(t, "read_with_mac", 0) else "0"
+        return "%s | %s | %s %s %s ndef=%s mac=%s" % (
+            ";".join(s["result"] for s in self.steps), ";".join(hx(c) for c in self.air.sent), hx(self.tag.digest()),
+            "1" if getattr(t, "_authenticated", None) is True else "0", sess, cache, mac)
 
 
 # ----------------------------------------------------------------------------------------------- the oracle
@@ -266,6 +316,7 @@ def judge(ck, run, clean):
     seen_rc = set()
     rep = dict(h.describe(), results=[s["result"] for s in run.steps])
     current = False           # the reader's session is the card's session (last authenticate succeeded on this card)
+    session = None            # (exchange number where the last successful authentication ended, CK block, RC block)
     for si, s in enumerate(run.steps):
         op, res, b = s["op"], s["result"], s["before"]
         k = op[0]
@@ -278,7 +329,39 @@ def judge(ck, run, clean):
         # ---- no internal exception, no foreign return value
         if res.startswith("exc:") and res[4:] in INTERNAL and res[4:] not in ALLOWED_INTERNAL.get(k, set()):
             ck.fail("lite-s-auth-mac-failure-typeerror" if res == "exc:TypeError" and h.lite_s and k == "a"
+                    else "ndef-mac-failure-typeerror" if res == "exc:TypeError" and k in ("n", "h", "t")
                     else "hist-internal-exception", what, rep)
+        # ---- which session the tag object is in: a successful authenticate() (FelicaLiteS.protect(password) contains one)
+        if k == "a" and not res.startswith("exc:ValueError"):
+            session = (s["x1"], F.key_block(key_of(op[1])), rev_halves(op[2])) if res == "true" else None
+        if k == "t" and op[1] is not None and not res.startswith("exc:ValueError"):
+            session = (s["x1"], F.key_block(key_of(op[1])), rev_halves(op[4])) if (res == "true" and h.lite_s) else None
+        if k == "n" and session is not None and not res.startswith("exc:") and res not in ("none",) and not res.startswith("other:"):
+            # every octet handed out by tag.ndef after a successful authenticate() was covered by a MAC that verifies
+            # under the session key of THAT authentication (independent MAC computation: sims/auth_des.py)
+            data = b"" if res == "-" else bytes.fromhex(res)
+            verified = {}
+            for i in range(session[0], s["x1"]):
+                c, r = run.air.sent[i], run.air.trace[i][2]
+                if r is None or len(c) < 16 or c[1] != 0x06 or len(c) != 14 + 2 * c[13] or c[-1] != 0x81:
+                    continue
+                nb = c[13]
+                if len(r) != 13 + 16 * nb or r[1] != 0x07 or r[10] != 0:
+                    continue
+                body = r[13:13 + 16 * (nb - 1)]
+                if D.lite_mac(session[1], session[2], body) != r[13 + 16 * (nb - 1):13 + 16 * (nb - 1) + 8]:
+                    continue
+                for j in range(nb - 1):
+                    verified.setdefault(c[15 + 2 * j], set()).add(body[16 * j:16 * j + 16])
+            need = [(1 + j, data[16 * j:16 * j + 16]) for j in range((len(data) + 15) // 16)]
+            bad = [n for (n, chunk) in need if not any(v[:len(chunk)] == chunk for v in verified.get(n, ()))]
+            if 0 not in verified or bad:
+                ck.fail("ndef-after-auth-not-mac-verified", what + ": %s; reads with a MAC that verifies under the session of the "
+                        "last successful authenticate(): blocks %s" % (
+                            "the attribute block was not read with MAC" if 0 not in verified else
+                            "the octets of block(s) %s were not covered by a verified MAC" % bad, sorted(verified)), rep)
+            elif not tampered and s["x1"] > s["x0"] and F.ndef_of(b["b"]) not in (None, data):
+                ck.fail("ndef-after-auth-wrong-data", what + ": the card holds %r" % (F.ndef_of(b["b"]),), rep)
         if res.startswith("other:"):
             ck.fail("hist-unexpected-return-value", what, rep)
         card_key = rev_halves(b["b"][0x87])
@@ -494,6 +577,8 @@ def tamper_rules(rng, T, clean, budget):
         session.append(k)
     for (i, cmd, rsp) in trace:
         cands = []
+        if cmd is not None and len(cmd) == 6 and cmd[1] == 0:
+            rsp = None          # a polling answer with another IDm is taken over by the tag object: outside the model
         if rsp is not None:
             n = len(rsp)
             prot = sorted(protected_positions(cmd, rsp))
@@ -706,4 +791,91 @@ def card_cases(rng, T):
         rsp = tag.command(cmd)
         out.append((" ".join(head + ["c:" + hx(cmd)]), "%s %s" % ("none" if rsp is None else hx(rsp), hx(tag.digest())),
                     kind, None if rsp is None else bytes(rsp[10:12])))
+    return out
+
+
+# ----------------------------------------------------------------------------------------------- tag.ndef
+def ndef_histories(rng, T):
+    """C20-r3m3 class: what `tag.ndef` hands out around authenticate() - NDEF data looked at BEFORE an
+    authentication (read without MAC, cached in the tag object), then authenticate / protect / format, then
+    tag.ndef / has_changed again; message lengths around the block and the three-blocks-per-MAC-read boundaries"""
+    def rb(n):
+        return bytes(rng.randrange(256) for _ in range(n))
+
+    out = []
+    patterns = ["N A N", "N A N N", "A N", "A N H", "N H A H", "N A H N", "N X N", "N A X N", "N A E N", "N A N P1 H N",
+                "N P1 N H", "N T0 N", "T0 N A N", "N T0 A N H", "N T1 A N", "N Tn0 N A N", "N F N", "N A F N", "F N A N",
+                "N A W N", "N A K N", "N A N K H", "N A R N", "N S N", "H", "N A P0 N H", "A N A N", "N A N A N"]
+    lengths = [0, 1, 15, 16, 17, 40, 47, 48, 49, 64, 100, 208] if T else [0, 16, 17, 48, 49, 100]
+    k = 0
+    for lite_s in (False, True):
+        for p in patterns:
+            words = p.split()
+            reps = 3 if T else 1
+            for _ in range(reps):
+                k += 1
+                key, other = rb(16), rb(16)
+                msg = rb(lengths[k % len(lengths)])
+                blocks = initial_blocks(rng, lite_s, rb(16) if words[0].startswith("T") else key)
+                formatted = words[0] != "F"
+                if formatted:
+                    F.store_ndef(blocks, msg, nbr=rng.choice([4, 4, 1, 2, 3, 13]))
+                ops = []
+                for w in words:
+                    if w == "N":
+                        ops.append(("n",))
+                    elif w == "H":
+                        ops.append(("h",))
+                    elif w == "A":
+                        ops.append(("a", key, rb(16)))
+                    elif w == "X":
+                        ops.append(("a", other, rb(16)))
+                    elif w == "E":
+                        ops.append(("a", b"", rb(16)))
+                    elif w == "S":
+                        ops.append(("a", rb(5), rb(16)))
+                    elif w == "F":
+                        ops.append(("f", rng.choice([None, None, 0x00, 0x5A])))
+                    elif w in ("T0", "T1", "Tn0"):
+                        ops.append(("t", None if w == "Tn0" else key, False, 0 if w.endswith("0") else 1, rb(16)))
+                    elif w == "W":
+                        ops.append(("w", rb(16), rng.randrange(1, 5)) if lite_s else ("p", rb(16), rng.randrange(1, 5)))
+                    elif w == "P1":
+                        ops.append(("p", rb(16), 1))
+                    elif w == "P0":                                     # somebody rewrites the attribute block: shorter message
+                        n = max(0, len(msg) - 5)
+                        a = bytearray(blocks[0])
+                        a[11:14] = n.to_bytes(3, "big")
+                        a[14:16] = sum(a[0:14]).to_bytes(2, "big")
+                        ops.append(("p", bytes(a), 0))
+                    elif w == "K":
+                        ops.append(("s", 0x87, F.key_block(rb(16))))
+                    elif w == "R":
+                        ops.append(("r", [1, 2]))
+                    else:
+                        raise ValueError(w)
+                out.append(Hist(lite_s, blocks, ops, (), "ndef " + p + " (%d octets)" % len(msg), sys12fc=formatted))
+    return out
+
+
+def ndef_tamper_rules(rng, T, clean):
+    """every exchange of every tag.ndef / has_changed call of a clean execution: a bit of the data area (the
+    falsified unprotected read before authentication; the MAC protected read after it) and a lost frame"""
+    out = []
+    for s in clean.steps:
+        if s["op"][0] not in ("n", "h"):
+            continue
+        span = [e for e in clean.air.trace[s["x0"]:s["x1"]] if e[2] is not None and e[1] is not None and e[1][1] == 0x06 and len(e[2]) > 13]
+        if not T and len(span) > 1:                              # quick tier: one exchange per call (the last one is a data read)
+            span = [span[rng.choice([0, len(span) - 1, rng.randrange(len(span))])]]
+        for (i, cmd, rsp) in span:
+            picks = [rng.randrange(13, len(rsp))] + ([rng.randrange(13, len(rsp)) for _ in range(3)] if T else [])
+            if T and len(rsp) >= 13 + 32:
+                picks.append(13 + 16 + rng.randrange(16))
+            for p_ in picks:
+                m = bytearray(len(rsp))
+                m[p_] = 1 << rng.randrange(8)
+                out.append(([("r", i, "xor", bytes(m))], "bit in octet %d of response %d (tag.ndef)" % (p_, i)))
+        if T and s["x1"] > s["x0"]:
+            out.append(([("r", s["x0"], "drop", None)], "response %d lost" % s["x0"]))
     return out
